@@ -146,7 +146,7 @@ def run(ctx):
         ctx.cov.setdefault("families", []).append({"family": name, "cases": len(got)})
         cases.extend(got)
     small = dict(FULL, MaxLen=2, Ctxs="{0,1}", LongLen=7, LongEdits='"none"')
-    res = tlc.run(ctx, "PatchApplyGen", cfg_text=table.cfg(small, WITNESSES), extra=("-continue",), allow_violation=True)
+    res = tlc.run(ctx, "PatchApplyGen", cfg_text=table.cfg(small, WITNESSES), extra=("-continue",), allow_violation=True, workers=2)
     found = set(re.findall(r"Invariant (\w+) is violated", res["output"]))
     if set(WITNESSES) - found:
         ctx.machinery("vacuity guard: witnesses not reached: %s" % sorted(set(WITNESSES) - found))
